@@ -132,6 +132,11 @@ fn exec(line: &str) -> String {
         "z_normal" => show64(proportion::ci_z_normal(conf(t[3], t[4]), u(t[1]), u(t[2]))),
         "prop_ci" => show64(proportion::ci(conf(t[3], t[4]), u(t[1]), u(t[2]))),
         "wilson_ratio" => show64(proportion::ci_wilson_ratio(conf(t[3], t[4]), u(t[1]), f(t[2]))),
+        "relative_to" => {
+            let mk = |k: &str, lo: &str, hi: &str| match k { "0" => Interval::TwoSided(f(lo), f(hi)), "1" => Interval::UpperOneSided(f(lo)), _ => Interval::LowerOneSided(f(hi)) };
+            let r = mk(t[1], t[2], t[3]).relative_to(&mk(t[4], t[5], t[6]));
+            show64(Ok(r))
+        }
         "tq" => hx(StudentsT::new(0., 1., f(t[2])).map(|d| d.inverse_cdf(f(t[1]))).unwrap_or(f64::NAN)),
         "zq" => hx(Normal::new(0., 1.).unwrap().inverse_cdf(f(t[1]))),
         "qstats_ci" => showu(quantile::Stats::new(u(t[1])).ci(conf(t[3], t[4]), f(t[2]))),
